@@ -1,0 +1,22 @@
+//go:build verif
+
+package debian
+
+// Machine-checked contracts for this package (checked by /verif/govc; see /verif/DESIGN.md).
+// This file contains comments only; it is compiled only under the build tag "verif".
+
+//@ func getDebianCharWeight
+
+//@ func compareDebianNonDigits
+//@   comparator a ~ b                                     [C01]
+
+//@ func compareDebianDigits
+//@   comparator a ~ b                                     [C01]
+
+// Two-cursor scanner: outside the loop shapes govc summarises; bounded stand-in.
+//@ func compareDebianVersionString
+//@   bounded alphabet "019a~.+" maxlen 3
+//@   comparator a ~ b                                     [C01]
+
+//@ func (*Version).Compare
+//@   comparator v ~ other                                 [C01]
